@@ -197,8 +197,8 @@ Definition enc_adaptation_field (af : PacketAdaptationField) : res (list witem *
   let sc := if PacketAdaptationField_HasSplicingCountdown af then [wu8 (PacketAdaptationField_SpliceCountdown af)] else [] in
   let n3 := if PacketAdaptationField_HasSplicingCountdown af then 1 else 0 in
   let tpd := if PacketAdaptationField_HasTransportPrivateData af
-             then wu8 (PacketAdaptationField_TransportPrivateDataLength af) ::
-                  (if PacketAdaptationField_TransportPrivateDataLength af >? 0
+             then wu8 (Z.of_nat (length (PacketAdaptationField_TransportPrivateData af))) ::
+                  (if Z.of_nat (length (PacketAdaptationField_TransportPrivateData af)) >? 0
                    then [WBytes (PacketAdaptationField_TransportPrivateData af)] else [])
              else [] in
   let n4 := if PacketAdaptationField_HasTransportPrivateData af
@@ -209,15 +209,14 @@ Definition enc_adaptation_field (af : PacketAdaptationField) : res (list witem *
   let n6 := Z.max 0 (PacketAdaptationField_StuffingLength af) in
   Ok (head ++ pcr ++ opcr ++ sc ++ tpd ++ ext ++ stuff, 2 + n1 + n2 + n3 + n4 + n5 + n6)))).
 
-(* writePacket: Err when the payload does not fit (nothing is written in that case) *)
+(* writePacket: Err when the adaptation field or the payload does not fit (nothing is written in that case) *)
 Definition enc_packet (p : Packet) (target : Z) : res (list witem) :=
   let h := Packet_Header p in
   let plen := Z.of_nat (length (Packet_Payload p)) in
   res_bind (if PacketHeader_HasAdaptationField h
             then res_bind (need (Packet_AdaptationField p)) (fun af =>
-                   Ok (target - 1 - C_mpegTsPacketHeaderSize -
-                       (if PacketAdaptationField_IsOneByteStuffing af then 1
-                        else 1 + calcPacketAdaptationFieldLength af)))
+                   if PacketAdaptationField_StuffingLength af <? 0 then Err E_generic
+                   else Ok (target - 1 - C_mpegTsPacketHeaderSize - packetAdaptationFieldSize af))
             else Ok (target - 1 - C_mpegTsPacketHeaderSize)) (fun available =>
   if available <? plen then Err E_generic else
   res_bind (if PacketHeader_HasAdaptationField h
